@@ -1525,6 +1525,16 @@ static int cfg_parse_internal(cfg_t *cfg, int level, int force_state, cfg_opt_t 
 			val->section->path = cfg->path; /* Remember global search path */
 			val->section->line = cfg->line;
 			val->section->errfunc = cfg->errfunc;
+			/* a section that already existed (created by cfg_init() or
+			 * by an earlier parse) must report errors in this file */
+			if (cfg->filename && (!val->section->filename || strcmp(val->section->filename, cfg->filename))) {
+				char *fn = strdup(cfg->filename);
+
+				if (!fn)
+					goto error;
+				free(val->section->filename);
+				val->section->filename = fn;
+			}
 			rc = cfg_parse_internal(val->section, level + 1, -1, NULL);
 			if (rc != STATE_EOF)
 				goto error;
